@@ -12,6 +12,11 @@ open Spec
 /-- the final text of one class member -/
 def pcc (x : Nat) : Str := R (escapeClassChar x)
 
+/-- … with the verbose-mode escapes -/
+def pccV (v : Bool) (x : Nat) : Str := RV v (escapeClassChar x)
+
+theorem pccV_false (x : Nat) : pccV false x = pcc x := rfl
+
 def classSpecials : List Nat := [91, 93, 92, 45, 94, 36, 10, 13, 9, 11, 12]
 
 theorem pcc_raw (x : Nat) (h : x ∉ classSpecials) : pcc x = [x] := by
@@ -20,8 +25,8 @@ theorem pcc_raw (x : Nat) (h : x ∉ classSpecials) : pcc x = [x] := by
   simp [pcc, R, escapeClassChar, Gen.classEscapeChars, replaceChar, h91, h93, h92, h45, h94, h36, h10, h13, h9, h11, h12]
 
 /-- what the class parser needs to know about the text of one member -/
-structure MemberText (x : Nat) (h : Nat) (t : List Nat) : Prop where
-  eq : pcc x = h :: t
+structure MemberText (v : Bool) (x : Nat) (h : Nat) (t : List Nat) : Prop where
+  eq : pccV v x = h :: t
   h93 : h ≠ 93
   h91 : h ≠ 91
   h45 : h ≠ 45
@@ -30,9 +35,9 @@ structure MemberText (x : Nat) (h : Nat) (t : List Nat) : Prop where
   tilde : h = 126 → t = [] ∧ x = 126
   atom : ∀ rest, parseClassAtom false (h :: (t ++ rest)) = some (Prim.lit x, rest)
 
-theorem memberText (x : Nat) : ∃ h t, MemberText x h t := by
+theorem memberText0 (x : Nat) : ∃ h t, MemberText false x h t := by
   by_cases hs : x ∈ classSpecials
-  · have esc : ∀ a, pcc x = [92, a] → (∀ rest, parseEscape false (a :: rest) = some (Prim.lit x, rest)) → MemberText x 92 [a] := by
+  · have esc : ∀ a, pcc x = [92, a] → (∀ rest, parseEscape false (a :: rest) = some (Prim.lit x, rest)) → MemberText false x 92 [a] := by
       intro a hp he
       exact { eq := hp, h93 := by decide, h91 := by decide, h45 := by decide, h94 := by decide,
               amp := fun h => absurd h (by decide), tilde := fun h => absurd h (by decide),
@@ -69,12 +74,79 @@ theorem memberText (x : Nat) : ∃ h t, MemberText x h t := by
         rfl
       · rename_i heq; simp at heq
 
+
+
+theorem pccV_ascii_tab : (List.range 128).all (fun x => pccV true x ==
+    (if x = 35 then [92, 35] else if x = 32 then [92, 32] else pcc x)) = true := by decide +kernel
+
+theorem escapeClassChar_nonascii (x : Nat) (h : 128 ≤ x) : escapeClassChar x = [x] := by
+  have h1 : Gen.classEscapeChars.contains x = false := by
+    apply Bool.eq_false_iff.mpr
+    intro hc
+    have := List.contains_iff_mem.mp hc
+    simp [Gen.classEscapeChars] at this
+    omega
+  have a1 : x ≠ 10 := by omega
+  have a2 : x ≠ 13 := by omega
+  have a3 : x ≠ 9 := by omega
+  simp only [escapeClassChar, h1, Bool.false_eq_true, ite_false, a1, a2, a3]
+
+theorem pccV_nonascii (x : Nat) (h : 128 ≤ x) :
+    pccV true x = if Gen.verboseSpaces.contains x then [92, 117, 123] ++ toHex x ++ [125] else [x] := by
+  have := pcV_nonascii_raw x h
+  unfold pcV at this
+  rw [core1_nonascii x h] at this
+  unfold pccV
+  rw [escapeClassChar_nonascii x h]
+  simpa [E] using this
+
+theorem verboseSpaces_scalar : Gen.verboseSpaces.all isScalar = true := by decide
+
+theorem memberText (v : Bool) (x : Nat) : ∃ h t, MemberText v x h t := by
+  cases v with
+  | false => exact memberText0 x
+  | true =>
+    obtain ⟨h0, t0, m0⟩ := memberText0 x
+    have esc2 : ∀ (t : Str), pccV true x = 92 :: t → (∀ rest, parseEscape false (t ++ rest) = some (Prim.lit x, rest)) →
+        MemberText true x 92 t := by
+      intro t hp he
+      exact { eq := hp, h93 := by decide, h91 := by decide, h45 := by decide, h94 := by decide,
+              amp := fun h => absurd h (by decide), tilde := fun h => absurd h (by decide),
+              atom := fun rest => by simp only [parseClassAtom]; exact he rest }
+    by_cases hlt : x < 128
+    · have htab := List.all_eq_true.mp pccV_ascii_tab x (List.mem_range.mpr hlt)
+      simp only [beq_iff_eq] at htab
+      by_cases h35 : x = 35
+      · subst h35
+        exact ⟨92, [35], esc2 [35] (by decide +kernel) (by intro rest; simp [parseEscape, isEscapeable, isMeta, isAlnum])⟩
+      · by_cases h32 : x = 32
+        · subst h32
+          exact ⟨92, [32], esc2 [32] (by decide +kernel) (by intro rest; simp [parseEscape, isEscapeable, isMeta, isAlnum])⟩
+        · simp only [h35, h32, ite_false] at htab
+          exact ⟨h0, t0, { m0 with eq := by rw [htab]; exact m0.eq }⟩
+    · have hna := pccV_nonascii x (by omega)
+      by_cases hv : Gen.verboseSpaces.contains x = true
+      · simp only [hv, ite_true] at hna
+        refine ⟨92, 117 :: 123 :: (toHex x ++ [125]), esc2 _ (by rw [hna]; simp) ?_⟩
+        intro rest
+        have hsx : isScalar x = true := List.all_eq_true.mp verboseSpaces_scalar x (List.contains_iff_mem.mp hv)
+        have := parseEscape_hex x hsx rest
+        simpa using this
+      · simp only [hv, Bool.false_eq_true, ite_false] at hna
+        have h0eq : pccV false x = [x] := by
+          show pcc x = [x]
+          apply pcc_raw
+          simp only [classSpecials, List.mem_cons, List.mem_nil_iff, or_false]
+          omega
+        exact ⟨h0, t0, { m0 with eq := by rw [hna, ← h0eq]; exact m0.eq }⟩
+
+
 /-- a member printed on its own -/
-theorem class_single (x : Nat) (fuel : Nat) (rest : List Nat) (first : Bool) (acc : List ClassItem)
+theorem class_single (v : Bool) (x : Nat) (fuel : Nat) (rest : List Nat) (first : Bool) (acc : List ClassItem)
     (h45 : rest.head? ≠ some 45) (hop : (x = 38 ∨ x = 126) → rest.head? ≠ some x) :
-    parseClassItems false (fuel + 1) (pcc x ++ rest) first acc =
+    parseClassItems false (fuel + 1) (pccV v x ++ rest) first acc =
       parseClassItems false fuel rest false (ClassItem.range x x :: acc) := by
-  obtain ⟨h, t, m⟩ := memberText x
+  obtain ⟨h, t, m⟩ := memberText v x
   rw [m.eq]
   rw [parseClassItems]
   simp only [skipSpace_false, List.cons_append]
@@ -100,11 +172,11 @@ theorem class_single (x : Nat) (fuel : Nat) (rest : List Nat) (first : Bool) (ac
     · rfl
 
 /-- a run printed as `lo-hi` -/
-theorem class_range (lo hi : Nat) (hle : lo ≤ hi) (fuel : Nat) (rest : List Nat) (first : Bool) (acc : List ClassItem) :
-    parseClassItems false (fuel + 1) (pcc lo ++ ([45] ++ (pcc hi ++ rest))) first acc =
+theorem class_range (v : Bool) (lo hi : Nat) (hle : lo ≤ hi) (fuel : Nat) (rest : List Nat) (first : Bool) (acc : List ClassItem) :
+    parseClassItems false (fuel + 1) (pccV v lo ++ ([45] ++ (pccV v hi ++ rest))) first acc =
       parseClassItems false fuel rest false (ClassItem.range lo hi :: acc) := by
-  obtain ⟨h, t, m⟩ := memberText lo
-  obtain ⟨h', t', m'⟩ := memberText hi
+  obtain ⟨h, t, m⟩ := memberText v lo
+  obtain ⟨h', t', m'⟩ := memberText v hi
   rw [m.eq, m'.eq]
   rw [parseClassItems]
   simp only [skipSpace_false, List.cons_append]
@@ -143,9 +215,9 @@ open Spec
 /-- a single member, or a range `lo-hi` -/
 abbrev Chunk := Nat × Option Nat
 
-def chunkText : Chunk → Str
-  | (lo, none) => pcc lo
-  | (lo, some hi) => pcc lo ++ ([45] ++ pcc hi)
+def chunkText (v : Bool) : Chunk → Str
+  | (lo, none) => pccV v lo
+  | (lo, some hi) => pccV v lo ++ ([45] ++ pccV v hi)
 
 def chunkItem : Chunk → ClassItem
   | (lo, none) => .range lo lo
@@ -158,9 +230,9 @@ def chunkEnds : Chunk → List Nat
 def runChunks (r : List Nat) : List Chunk :=
   if r.length ≤ 2 then r.map fun c => (c, none) else [(r.headD 0, some (r.getLastD 0))]
 
-theorem nextOK_member (x y : Nat) (hxy : x ≠ y) (rest : List Nat) :
-    (pcc y ++ rest).head? ≠ some 45 ∧ ((x = 38 ∨ x = 126) → (pcc y ++ rest).head? ≠ some x) := by
-  obtain ⟨h, t, m⟩ := memberText y
+theorem nextOK_member (v : Bool) (x y : Nat) (hxy : x ≠ y) (rest : List Nat) :
+    (pccV v y ++ rest).head? ≠ some 45 ∧ ((x = 38 ∨ x = 126) → (pccV v y ++ rest).head? ≠ some x) := by
+  obtain ⟨h, t, m⟩ := memberText v y
   rw [m.eq]
   simp only [List.cons_append, List.head?_cons, ne_eq, Option.some.injEq]
   refine ⟨m.h45, ?_⟩
@@ -168,9 +240,9 @@ theorem nextOK_member (x y : Nat) (hxy : x ≠ y) (rest : List Nat) :
   · exact hxy (m.amp hc).2.symm
   · exact hxy (m.tilde hc).2.symm
 
-theorem class_chunks (cks : List Chunk) (hok : (cks.flatMap chunkEnds).Pairwise (· < ·)) :
+theorem class_chunks (v : Bool) (cks : List Chunk) (hok : (cks.flatMap chunkEnds).Pairwise (· < ·)) :
     ∀ (fuel : Nat) (rest : List Nat) (first : Bool) (acc : List ClassItem),
-      parseClassItems false (fuel + cks.length) (cks.flatMap chunkText ++ 93 :: rest) first acc =
+      parseClassItems false (fuel + cks.length) (cks.flatMap (chunkText v) ++ 93 :: rest) first acc =
         parseClassItems false fuel (93 :: rest) false ((cks.map chunkItem).reverse ++ acc) ∨ cks = [] := by
   induction cks with
   | nil => intro _ _ _ _; exact Or.inr rfl
@@ -183,8 +255,8 @@ theorem class_chunks (cks : List Chunk) (hok : (cks.flatMap chunkEnds).Pairwise 
     obtain ⟨hc, hrest, hcross⟩ := hok
     -- what follows this chunk
     have hnext : ∀ x, x ∈ chunkEnds c →
-        (cks.flatMap chunkText ++ 93 :: rest).head? ≠ some 45 ∧
-          ((x = 38 ∨ x = 126) → (cks.flatMap chunkText ++ 93 :: rest).head? ≠ some x) := by
+        (cks.flatMap (chunkText v) ++ 93 :: rest).head? ≠ some 45 ∧
+          ((x = 38 ∨ x = 126) → (cks.flatMap (chunkText v) ++ 93 :: rest).head? ≠ some x) := by
       intro x hx
       cases cks with
       | nil =>
@@ -193,23 +265,23 @@ theorem class_chunks (cks : List Chunk) (hok : (cks.flatMap chunkEnds).Pairwise 
       | cons d ds =>
         obtain ⟨lo, o⟩ := d
         have hlo : x < lo := hcross x hx lo (by cases o <;> simp [chunkEnds])
-        have := nextOK_member x lo (by omega)
+        have := nextOK_member v x lo (by omega)
         cases o with
         | none => simp only [List.flatMap_cons, chunkText, List.append_assoc]; exact this _
         | some hi => simp only [List.flatMap_cons, chunkText, List.append_assoc]; exact this _
-    have step : parseClassItems false (fuel + cks.length + 1) (chunkText c ++ (cks.flatMap chunkText ++ 93 :: rest)) first acc =
-        parseClassItems false (fuel + cks.length) (cks.flatMap chunkText ++ 93 :: rest) false (chunkItem c :: acc) := by
+    have step : parseClassItems false (fuel + cks.length + 1) (chunkText v c ++ (cks.flatMap (chunkText v) ++ 93 :: rest)) first acc =
+        parseClassItems false (fuel + cks.length) (cks.flatMap (chunkText v) ++ 93 :: rest) false (chunkItem c :: acc) := by
       obtain ⟨lo, o⟩ := c
       cases o with
       | none =>
         obtain ⟨h1, h2⟩ := hnext lo (by simp [chunkEnds])
-        exact class_single lo _ _ first acc h1 h2
+        exact class_single v lo _ _ first acc h1 h2
       | some hi =>
         have hle : lo ≤ hi := by
           simp only [chunkEnds, List.pairwise_cons, List.mem_singleton, forall_eq] at hc
           omega
         simp only [chunkText, chunkItem, List.append_assoc]
-        exact class_range lo hi hle _ _ first acc
+        exact class_range v lo hi hle _ _ first acc
     rw [step]
     rcases ih hrest (fuel) rest false (chunkItem c :: acc) with h | h
     · rw [h]; simp
@@ -223,15 +295,16 @@ theorem class_close (fuel : Nat) (rest : List Nat) (acc : List ClassItem) :
 
 /-! ### from runs to chunks -/
 
-theorem R_runText (r : List Nat) :
-    R (if r.length ≤ 2 then r.flatMap escapeClassChar
+theorem RV_hyphen (v : Bool) : RV v (Comp.hyphen false) = [45] := by cases v <;> decide
+
+theorem R_runText (v : Bool) (r : List Nat) :
+    RV v (if r.length ≤ 2 then r.flatMap escapeClassChar
         else escapeClassChar (r.headD 0) ++ Comp.hyphen false ++ escapeClassChar (r.getLastD 0)) =
-      (runChunks r).flatMap chunkText := by
+      (runChunks r).flatMap (chunkText v) := by
   unfold runChunks
   split
-  · rw [R_flatMap, List.flatMap_map]; rfl
-  · simp only [R_append, List.flatMap_cons, List.flatMap_nil, List.append_nil, chunkText, pcc, List.append_assoc]
-    congr 1
+  · rw [RV_flatMap, List.flatMap_map]; rfl
+  · simp only [RV_append, RV_hyphen v, List.flatMap_cons, List.flatMap_nil, List.append_nil, chunkText, pccV, List.append_assoc]
 
 theorem runItems_chunks (r : List Nat) : runItems r = (runChunks r).map chunkItem := by
   unfold runItems runChunks
@@ -276,17 +349,20 @@ theorem chunks_ok (cs : List Nat) (hs : cs.Pairwise (· < ·)) :
     exact this
   exact List.Pairwise.sublist hsub hs
 
-theorem fmtClass_text (cap esc : Bool) (cs : List Nat) :
-    R (fmtClass (cfgPlain cap esc) cs) = 91 :: (((runs cs).flatMap runChunks).flatMap chunkText ++ [93]) := by
-  have hb : R ((runs cs).flatMap fun r => if r.length ≤ 2 then r.flatMap escapeClassChar
+theorem fmtClass_text (v : Bool) (cap esc : Bool) (cs : List Nat) :
+    RV v (fmtClass (cfgPlain cap esc) cs) = 91 :: (((runs cs).flatMap runChunks).flatMap (chunkText v) ++ [93]) := by
+  have hb : RV v ((runs cs).flatMap fun r => if r.length ≤ 2 then r.flatMap escapeClassChar
       else escapeClassChar (r.headD 0) ++ Comp.hyphen false ++ escapeClassChar (r.getLastD 0)) =
-      ((runs cs).flatMap runChunks).flatMap chunkText := by
-    rw [R_flatMap, List.flatMap_assoc]
+      ((runs cs).flatMap runChunks).flatMap (chunkText v) := by
+    rw [RV_flatMap, List.flatMap_assoc]
     congr 1
     funext r
-    exact R_runText r
+    exact R_runText v r
   simp only [fmtClass, cfgPlain, Comp.leftBracket, Comp.rightBracket, paint, Gen.strLeftBracket, Gen.strRightBracket,
-    Bool.false_eq_true, ite_false, R_append, hb]
+    Bool.false_eq_true, ite_false, RV_append, hb]
+  have h91 : RV v [91] = [91] := by cases v <;> decide
+  have h93 : RV v [93] = [93] := by cases v <;> decide
+  rw [h91, h93]
   rfl
 
 theorem classItems_chunks (cs : List Nat) : classItems cs = ((runs cs).flatMap runChunks).map chunkItem := by
@@ -295,30 +371,30 @@ theorem classItems_chunks (cs : List Nat) : classItems cs = ((runs cs).flatMap r
   funext r
   exact runItems_chunks r
 
-theorem pcc_ne_nil (x : Nat) : pcc x ≠ [] := by
-  obtain ⟨h, t, m⟩ := memberText x
+theorem pcc_ne_nil (v : Bool) (x : Nat) : pccV v x ≠ [] := by
+  obtain ⟨h, t, m⟩ := memberText v x
   rw [m.eq]; simp
 
-theorem chunkText_len (c : Chunk) : 1 ≤ (chunkText c).length := by
+theorem chunkText_len (v : Bool) (c : Chunk) : 1 ≤ (chunkText v c).length := by
   obtain ⟨lo, o⟩ := c
-  have := pcc_ne_nil lo
+  have := pcc_ne_nil v lo
   cases o with
   | none =>
     simp only [chunkText]
-    cases h : pcc lo with
+    cases h : pccV v lo with
     | nil => exact absurd h this
     | cons a as => simp
   | some hi =>
     simp only [chunkText, List.length_append]
-    cases h : pcc lo with
+    cases h : pccV v lo with
     | nil => exact absurd h this
     | cons a as => simp; omega
 
-theorem chunks_len (cks : List Chunk) : cks.length ≤ (cks.flatMap chunkText).length := by
+theorem chunks_len (v : Bool) (cks : List Chunk) : cks.length ≤ (cks.flatMap (chunkText v)).length := by
   induction cks with
   | nil => simp
   | cons c cks ih =>
-    have := chunkText_len c
+    have := chunkText_len v c
     simp only [List.flatMap_cons, List.length_append, List.length_cons]
     omega
 
@@ -330,9 +406,9 @@ theorem neg_match (h : Nat) (t : List Nat) (h94 : h ≠ 94) :
   · rfl
 
 /-- **one printed class is one `set` item**, read in one round of the parser loop -/
-theorem lex_class (cap esc : Bool) (cs : List Nat) (hne : cs ≠ []) (hs : cs.Pairwise (· < ·))
+theorem lex_class (v : Bool) (cap esc : Bool) (cs : List Nat) (hne : cs ≠ []) (hs : cs.Pairwise (· < ·))
     (f : Nat) (rest : List Nat) (st : List Frame) (al co : List Pat) :
-    parseLoop false (f + 1) (R (fmtClass (cfgPlain cap esc) cs) ++ rest) st al co =
+    parseLoop false (f + 1) (RV v (fmtClass (cfgPlain cap esc) cs) ++ rest) st al co =
       parseLoop false f rest st al (Pat.set (classItems cs) false :: co) := by
   rw [fmtClass_text, classItems_chunks]
   generalize hck : (runs cs).flatMap runChunks = cks
@@ -352,14 +428,14 @@ theorem lex_class (cap esc : Bool) (cs : List Nat) (hne : cs ≠ []) (hs : cs.Pa
     cases cks with
     | nil => exact absurd rfl hcne
     | cons a b => exact ⟨a, b, rfl⟩
-  have hhead : ∃ h t, (c0 :: cks').flatMap chunkText ++ [93] ++ rest = h :: t ∧ h ≠ 94 := by
+  have hhead : ∃ h t, (c0 :: cks').flatMap (chunkText v) ++ [93] ++ rest = h :: t ∧ h ≠ 94 := by
     obtain ⟨lo, o⟩ := c0
-    obtain ⟨h, t, m⟩ := memberText lo
+    obtain ⟨h, t, m⟩ := memberText v lo
     cases o with
     | none => exact ⟨h, _, by simp only [List.flatMap_cons, chunkText, m.eq, List.cons_append]; rfl, m.h94⟩
     | some hi => exact ⟨h, _, by simp only [List.flatMap_cons, chunkText, m.eq, List.cons_append]; rfl, m.h94⟩
   obtain ⟨h, t, hht, h94⟩ := hhead
-  have htext : (91 :: ((c0 :: cks').flatMap chunkText ++ [93])) ++ rest = 91 :: h :: t := by
+  have htext : (91 :: ((c0 :: cks').flatMap (chunkText v) ++ [93])) ++ rest = 91 :: h :: t := by
     rw [← hht]; simp
   rw [htext, parseLoop]
   simp only [skipSpace_false]
@@ -369,13 +445,13 @@ theorem lex_class (cap esc : Bool) (cs : List Nat) (hne : cs ≠ []) (hs : cs.Pa
     show (91 : Nat) ≠ 123 by decide, ite_false, Bool.or_self, Bool.false_eq_true, ite_true, decide_false]
   simp only [neg_match h t h94]
   -- run the class parser
-  have hlenb := chunks_len (c0 :: cks')
+  have hlenb := chunks_len v (c0 :: cks')
   have hfuel : (h :: t).length + 2 = ((h :: t).length + 1 - (c0 :: cks').length) + 1 + (c0 :: cks').length := by
     rw [← hht]
     simp only [List.length_append, List.length_cons, List.length_nil] at hlenb ⊢
     omega
   rw [hfuel, ← hht]
-  have hrun := class_chunks (c0 :: cks') hok (((c0 :: cks').flatMap chunkText ++ [93] ++ rest).length + 1 - (c0 :: cks').length + 1) rest true []
+  have hrun := class_chunks v (c0 :: cks') hok (((c0 :: cks').flatMap (chunkText v) ++ [93] ++ rest).length + 1 - (c0 :: cks').length + 1) rest true []
   simp only [List.append_assoc, List.singleton_append] at hrun ⊢
   rcases hrun with hrun | hrun
   · rw [hrun, class_close]
